@@ -10,6 +10,7 @@ import (
 
 	"github.com/logrusorgru/aurora"
 
+	"github.com/taskctl/taskctl/pkg/output"
 	"github.com/taskctl/taskctl/pkg/runner"
 	"github.com/taskctl/taskctl/pkg/scheduler"
 	"github.com/taskctl/taskctl/pkg/task"
@@ -48,6 +49,9 @@ func newRunCommand() *cli.Command {
 				return fmt.Errorf("no target specified")
 			}
 
+			// contexts are shut down once, after the last target, whether it succeeded or not
+			defer taskRunner.Finish()
+
 			for _, v := range c.Args().Slice() {
 				if v == "--" {
 					break
@@ -70,6 +74,8 @@ func newRunCommand() *cli.Command {
 				ArgsUsage: "task (TASK1) [TASK2]... [flags] [-- TASK_ARGS]",
 				Usage:     "run specified task(s)",
 				Action: func(c *cli.Context) error {
+					defer taskRunner.Finish()
+
 					for _, v := range c.Args().Slice() {
 						if v == "--" {
 							break
@@ -124,10 +130,12 @@ func runPipeline(g *scheduler.ExecutionGraph, taskRunner *runner.TaskRunner, sum
 	}()
 
 	err := sd.Schedule(g)
+	// stops the cockpit spinner; contexts are shut down by the caller once
+	// all targets have run
+	output.Close()
 	if err != nil {
 		return err
 	}
-	sd.Finish()
 
 	fmt.Fprint(os.Stdout, "\r\n")
 
@@ -139,14 +147,7 @@ func runPipeline(g *scheduler.ExecutionGraph, taskRunner *runner.TaskRunner, sum
 }
 
 func runTask(t *task.Task, taskRunner *runner.TaskRunner) error {
-	err := taskRunner.Run(t)
-	if err != nil {
-		return err
-	}
-
-	taskRunner.Finish()
-
-	return nil
+	return taskRunner.Run(t)
 }
 
 func taskArgs(c *cli.Context) []string {
